@@ -35,3 +35,6 @@ PROBES = list(PROBES) + ["merged-accumulator-fed-the-rest-of-the-stream", "chunk
 PROBES = list(PROBES) + ["tree-merge:sum-of-sums", "tree-merge:never-pushed-accumulator", "tree-merge:3+parts", "tree-merge:4+parts"]
 RULE = RULE + (" Round 9: half of the scenarios with n >= 3 also split the stream over 3-8 accumulators and add them pairwise in a generated bracketing (left fold, right fold, "
                "balanced tree, random; operands optionally flipped; 15% with one accumulator that never received a sample); the result is held against the same two-pass truth.")
+
+# dimensions added in seeded round 10
+ASSUMPTIONS = list(ASSUMPTIONS) + ["counts are compared in float64 (a count kept in a narrower float must not lend its precision to the comparison)"]
